@@ -20,6 +20,7 @@ import (
 	"sort"
 	"strings"
 	"sync"
+	"sync/atomic"
 	"time"
 
 	"mosn.io/mosn/pkg/verifhook"
@@ -29,6 +30,7 @@ import (
 
 func init() {
 	lab.Register("c03-engine", c03Engine)
+	lab.Register("c03-storm", c03Storm)
 	lab.Register("c03-steer", c03Steer)
 }
 
@@ -380,4 +382,70 @@ func c03Steer(c *lab.Ctx) {
 	}
 	c.Exhaustive(c.Thorough())
 	c.Require("hook points reached", reached["pertry"] > 0 && reached["global"] > 0 && reached["resp"] > 0 && reached["reset1"] > 0 && reached["reset2"] > 0, fmt.Sprint(reached))
+}
+
+// c03Storm: many concurrent requests whose FIRST attempts end by the upstream closing / resetting the connection or by the
+// per-try timeout, on retrying routes, one protocol at a time at high concurrency: the previous attempt's connection is still
+// winding down (its read loop resets and destroys the attempt's stream) while the retry sets up the next attempt with the same
+// request context. Every request must still end exactly once, and the process must survive.
+func c03Storm(c *lab.Ctx) {
+	c.Rule("running MOSN; per protocol 16 concurrent clients x retrying routes (with / without per-try timeout) x plans whose first attempts are closed, reset, answered in half or stalled by the upstream (close|ok, rst|rst|ok, half|ok, stall|ok, close|close|ok, s503|close|ok); exactly one terminal outcome per request, the worker process must survive; distinct = (protocol, route, plan, outcome)")
+	e, err := newEngine(c, engineProtos, c03Routes, nil, nil)
+	if err != nil {
+		c.Require("mosn started", false, err.Error())
+		return
+	}
+	// injected delay (what a loaded machine does by itself now and then): the goroutine that destroys an HTTP/1 client stream is
+	// descheduled for 25 ms inside the pool's bookkeeping, i.e. longer than the proxy's 10 ms retry back-off
+	var dn int64
+	verifhook.Set("http.pool.request.dec", func(string, uint64) {
+		if atomic.AddInt64(&dn, 1)%3 == 0 {
+			time.Sleep(25 * time.Millisecond)
+		}
+	})
+	defer verifhook.Set("http.pool.request.dec", nil)
+	rng := c.Rand("storm")
+	plans := []string{"close|ok", "rst|rst|ok", "half|ok", "stall|ok", "close|close|ok", "s503|close|ok", "close|stall", "half|half|ok", "rst|ok"}
+	per := c.Pick(60, 400)
+	var tokenN int64
+	for _, proto := range engineProtos {
+		var wg sync.WaitGroup
+		for ci := 0; ci < 16; ci++ {
+			wg.Add(1)
+			crng := rng.Fork()
+			go func(ci int, crng *lab.Rand) {
+				defer wg.Done()
+				cl := e.newClient(proto, fmt.Sprintf("%s-storm-%d", proto, ci))
+				defer cl.close()
+				for k := 0; k < per; k++ {
+					cs := c03Case{proto: proto, key: crng.PickStr("retry", "retry", "retry0"), plan: plans[crng.Intn(len(plans))]}
+					if cs.key == "retry0" && strings.Contains(cs.plan, "stall|ok") {
+						cs.plan = "close|ok" // without a per-try timeout a stalled first attempt is ended by the global timeout, not retried
+					}
+					tok := fmt.Sprintf("s%d-%s-%d", c.Batch, proto, atomic.AddInt64(&tokenN, 1))
+					r := reqFor(proto, cs.key, tok, cs.plan)
+					r.Body = crng.Bytes(crng.PickInt(0, 10, 2000))
+					c.Case("storm %s route=%s plan=%s token=%s", proto, cs.key, cs.plan, tok)
+					ev := cl.do(r)
+					c.Eval(1)
+					c03Judge(c, cs, ev, e, "storm")
+					if ev.Kind == "open" || ev.Kind == "closed" {
+						cl.close()
+					}
+				}
+			}(ci, crng)
+		}
+		wg.Wait()
+	}
+	books, stable := e.quiesce(8 * time.Second)
+	if !stable {
+		c.Inconclusive("books not stable within the bound")
+	}
+	for k, v := range books {
+		if strings.HasPrefix(k, "downstream") && strings.HasSuffix(k, "request_active") && v != 0 {
+			c.Violation("no-request-left-active", "C03/storm/request-still-active-at-quiescence", fmt.Sprintf("%s = %d after all clients returned", k, v), map[string]interface{}{"books": nonZero(books)})
+		}
+	}
+	c.Count("storm-requests", atomic.LoadInt64(&tokenN))
+	c.Require("storm requests run", atomic.LoadInt64(&tokenN) > 100, fmt.Sprint(tokenN))
 }
